@@ -160,7 +160,7 @@ var shardTable = map[string]int{
 	"C05/hist/lifecycle-handler-panics-seq-mode0": 8, "C05/hist/lifecycle-handler-panics-seq-mode1": 8,
 	"C06/hist/exhaust-mode0": 4, "C06/hist/exhaust-mode1": 6,
 	"C06/hist/exhaust-long-mode0": 4, "C06/hist/exhaust-long-mode1": 4,
-	"C08/engine/tree-shutdown": 8, "C08/engine/tree-shutdown-large": 6,
+	"C08/engine/tree-shutdown": 10, "C08/engine/tree-shutdown-large": 6,
 	"C08/engine/child-self-stop-races-shutdown": 2, "C08/engine/child-crash-races-shutdown": 2,
 	"C08/engine/third-party-poison-races-shutdown": 2, "C08/engine/child-max-restarts-races-shutdown": 2,
 	"C10/engine/concurrent-spawn": 4, "C10/engine/concurrent-spawn-3": 7,
